@@ -872,3 +872,44 @@ func (g *gen) runHelpers() {
 	})
 	_ = strconv.Itoa
 }
+
+// runMapSpec (C19): sequential histories of the map beneath the container - the sequential specification that the
+// linearizability theorem (Props/C19, Proofs/Linearizable.lean) is stated against is the model's `Lin.mapSpec`; here it is
+// executed next to the real container.MutexMap on the same operation sequences.
+func (g *gen) runMapSpec() {
+	g.pureWorld()
+	// every sequence of length ≤ 3 over a small alphabet (two keys, two values)
+	alpha := []string{"g:1", "g:2", "i:1:7", "i:1:8", "i:2:7", "s:1:9", "s:2:9", "r:1", "r:2", "l", "k"}
+	for _, x := range alpha {
+		g.emitf("mapseq %s", x)
+		for _, y := range alpha {
+			g.emitf("mapseq %s %s k", x, y)
+			for _, z := range alpha {
+				g.emitf("mapseq %s %s %s l k", x, y, z)
+			}
+		}
+	}
+	// long random sequences over a few keys
+	g.randomPart(func() {
+		n := 4 + g.r.Intn(28)
+		toks := make([]string, 0, n)
+		for j := 0; j < n; j++ {
+			k, v := g.r.Intn(5), g.r.Intn(1000)
+			switch g.r.Intn(8) {
+			case 0, 1:
+				toks = append(toks, "g:"+strconv.Itoa(k))
+			case 2, 3:
+				toks = append(toks, "i:"+strconv.Itoa(k)+":"+strconv.Itoa(v))
+			case 4:
+				toks = append(toks, "s:"+strconv.Itoa(k)+":"+strconv.Itoa(v))
+			case 5:
+				toks = append(toks, "r:"+strconv.Itoa(k))
+			case 6:
+				toks = append(toks, "l")
+			default:
+				toks = append(toks, "k")
+			}
+		}
+		g.emitf("mapseq %s", strings.Join(toks, " "))
+	})
+}
